@@ -3,3 +3,4 @@ pub mod conv;
 pub mod alpha;
 pub mod roots;
 pub mod fmt_templates;
+pub mod shapes;
